@@ -35,6 +35,7 @@ import (
 
 	"github.com/kubewharf/kubebrain/pkg/metrics"
 	"github.com/kubewharf/kubebrain/pkg/server/service/leader"
+	"github.com/kubewharf/kubebrain/pkg/verifhook"
 )
 
 type RevisionSyncer interface {
@@ -153,6 +154,7 @@ func (r *revisionSyncer) singleFlightGetRevisionFromLeader() (uint64, error) {
 		if initiated || attempt > 0 {
 			return v.(uint64), err
 		}
+		verifhook.Yield("revision.refetch")
 	}
 }
 
